@@ -312,6 +312,11 @@ class ArgumentLeak(WorldError):
     """a resolver received an argument object that a resolver of an EARLIER request had edited"""
 
 
+class ArgumentShared(WorldError):
+    """a resolver received an argument object that ANOTHER execution of this request (another parent of a list, a
+    sibling alias using the same variable) had edited"""
+
+
 MUT = "__mut_"
 
 
@@ -417,12 +422,17 @@ def install_world(schema, holder):
             raise WorldError("undeclared keyword arguments %s for %s.%s" % (sorted(set(args) - declared), info.parent_type.name, info.field_definition.name))
         # (1) arguments are this request's own objects: nothing an earlier request's resolver did to ITS arguments
         #     (lists / dicts, e.g. schema default values) may arrive here
-        mark = "%s%d__" % (MUT, w.epoch)
+        #     nor what ANOTHER execution of this request did (each execution of a field coerces its own arguments)
+        mark = "%s%d_%d__" % (MUT, w.epoch, fnv("/".join(str(p) for p in info.path)))
         found = set()
         _scan_marks(args, w.epoch, found)
         if found - {mark}:
-            raise ArgumentLeak("%s.%s received an argument edited by a resolver of an earlier request"
-                               % (info.parent_type.name, info.field_definition.name))
+            here = "%s%d_" % (MUT, w.epoch)
+            if any(not m.startswith(here) for m in found):
+                raise ArgumentLeak("%s.%s received an argument edited by a resolver of an earlier request"
+                                   % (info.parent_type.name, info.field_definition.name))
+            raise ArgumentShared("%s.%s at %s received an argument edited by another execution of the same request"
+                                 % (info.parent_type.name, info.field_definition.name, "/".join(str(p) for p in info.path)))
         clean = _without_marks(args) if found else args
         o = w.outcome(info.parent_type.name, info.field_definition.name, ty_of(info.field_definition.type),
                       info.path, canon_args(clean))
@@ -650,6 +660,8 @@ def run_impl(schema, document, variables, opname, validate=True):
         r = graphql_blocking(schema, document, variables=variables, operation_name=opname)
     except ArgumentLeak:
         return {"internal": "ArgumentLeakedFromEarlierRequest"}
+    except ArgumentShared:
+        return {"internal": "ArgumentSharedBetweenExecutions"}
     except WorldError:
         return {"internal": "unexpected"}
     except RecursionError:
